@@ -36,6 +36,8 @@ ASSUMPTIONS = [
     "(decimal ints, letter-only strings, true/false, null, [..] lists), and null only for Optional types",
     "option names are never proper prefixes of other option names (argparse abbreviation matching is not modelled; on "
     "Python 3.12.1 an abbreviation that is ambiguous in the PARENT parser even breaks subcommand options)",
+    "argparse takes an UNKNOWN option whose text contains a space (`--k=[1, 2]`) for a positional value: such words are not "
+    "generated as invalid options (tokenisation is argparse's business)",
     "not generated (model answers EUnmodelled): constructor parameter named subcommand or like a method, subcommand named "
     "config, --config sections for a subcommand other than the chosen one, subcommand chosen by the config (C17)",
 ]
@@ -163,7 +165,8 @@ def p_required(p):
 
 
 def p_offered(p):
-    return p_required(p) or not p["n"].startswith("_")
+    # the spec's sp_offered: everything except private parameters that have a default in the signature
+    return p["d"] is None or not p["n"].startswith("_")
 
 
 def p_ty(p):
@@ -265,10 +268,12 @@ def gen_line(rng, comps, as_pos, invalid):
                     level_toks.append(["opt", p["n"], bv])
         if mutation == "unknown_opt" and not mutated and rng.random() < 0.6:
             mutated = True
-            level_toks.append(["opt", rng.choice(["zzz", "_hid", "nope"]), 1])
-        if mutation == "opt_for_positional" and not mutated and positional:
+            # a name that is NOT an option of this level (`_hid` only while it is a private parameter left to its default)
+            level_toks.append(["opt", rng.choice([n for n in ["zzz", "_hid", "nope"] if n not in {q["n"] for q in sig}]), 1])
+        # (not for List[int]: argparse takes an unknown `--k=[1, 2]` - a word with spaces - for a positional value)
+        if mutation == "opt_for_positional" and not mutated and [q for q in positional if base_ty(p_ty(q)) != "list"]:
             mutated = True
-            p = rng.choice(positional)
+            p = rng.choice([q for q in positional if base_ty(p_ty(q)) != "list"])
             level_toks.append(["opt", p["n"], gen_value(rng, p_ty(p), allow_none=False)])
         if mutation == "unknown_key" and not mutated and rng.random() < 0.6:
             mutated = True
@@ -584,17 +589,40 @@ def shrink(case):
 
 
 META = {
-    "level_text": "Theorem C12_binds_exactly (coq/Properties/C12.v): for every signature list, every component tree (function, class "
-                  "with methods, list, nested dict), every tokenised command line and every conversion function, if the model of "
-                  "auto_cli/_run_component succeeds and no function parameter is called `subcommand` and no method parameter `config`, "
-                  "then its call log is exactly the one the reference semantics demands: the selected component called once, every "
-                  "parameter bound to the last given-and-converted value or else its default, constructor and method each with their "
-                  "own parameters only, the callee's return value passed through. C12_required_iff_no_default, "
-                  "C12_optional_defaults_none, C12_class_split state the remaining clauses. The model is tied to the real auto_cli by "
+    "level_text": "Theorem C12_binds_exactly (coq/Properties/C12.v, = model_refines_spec in Proofs/C12CliProofs.v): for EVERY component "
+                  "tree (function, class with any number of methods, list, nested dict of any depth with _help entries), every "
+                  "signature list (any length, types, defaults, private names), every tokenised command line (options, bare words, "
+                  "--config documents with nested sections, repeated and shuffled), every text->value conversion function and both "
+                  "values of as_positional: if no function parameter is called `subcommand`, no method parameter `config`, and no "
+                  "private parameter is Optional without default, then the code-shaped model of auto_cli (argparse table of "
+                  "_add_signature_parameter, per-level namespaces, nested Namespace, dotted-key dispatch loop, _run_component with "
+                  "its pops, CPython keyword binding) and the reference semantics agree on every outcome: same call log and "
+                  "returned value (the selected component once; constructor then chosen method for a class; each parameter bound "
+                  "to the last given-and-converted value, else its default), command line rejected exactly when the spec rejects, "
+                  "parser refused exactly when the spec refuses, and a TypeError never escapes from the call. Proved by simulation "
+                  "(induction over the token list, namespace = fold of the assignments seen) plus induction over the chain of "
+                  "frames for nest/dispatch/_run_component. About the reference semantics itself: C12_each_parameter_once (names "
+                  "of the binding = names of the signature in order; value = sp_value; required ones were given), "
+                  "C12_given_else_default, C12_selected_only (dict/list: the first bare word selects, the log is that entry's), "
+                  "C12_function_called_once, C12_class_split (model level: constructor and method each get exactly their own "
+                  "parameters, method's return value returned), C12_required_iff_no_default and C12_optional_defaults_none (on the "
+                  "code-shaped arg_of_param). C12_reserved_names_refuted, C12_reserved_config_refuted, C12_private_optional_refuted "
+                  "exhibit the inputs on which the unchanged code violates the property (both guards are needed); "
+                  "C12_guards_satisfiable is a non-trivial input inside the guards. The model is tied to the real auto_cli by "
                   "generated Python modules whose callees record their arguments; model- and spec-agreement are computed inside Coq.",
-    "level_note": "Partial: the model starts from signatures (inspect.signature, docstrings, stubs not modelled); argparse tokenisation, "
-                  "CPython call binding and value conversion are parameters/trusted. Known finding reserved-param-names (function "
-                  "parameter `subcommand`, method parameter `config` silently dropped) is reproduced by the faithful model "
-                  "(C12_reserved_names_refuted) and excluded by the guard no_reserved_param_names.",
-    "technique": "Rocq proof by simulation (namespace fold vs. last-assignment semantics, induction over the token list) + generated-program correspondence evaluated in Coq",
+    "level_note": "Partial. Proved for all inputs of the modelled space; NOT modelled (trusted or only exercised): introspection "
+                  "(inspect.signature, docstrings, stubs, parameter resolvers) - the model starts from the signature; argparse's "
+                  "tokenisation of argv incl. abbreviations and `--opt value` splitting (exercised); the text/JSON->value conversion "
+                  "(a parameter of every theorem; the run uses canonical texts of int/str/bool/List[int]/Optional); CPython's keyword "
+                  "call binding (modelled as bind_params, trusted); keyword-only vs positional-or-keyword kind (irrelevant to a "
+                  "**kwargs call, exercised); --config given as a file (exercised). The model answers EUnmodelled (nothing claimed, "
+                  "never generated) for: constructor parameter named `subcommand` or like a method, subcommand named `config`, "
+                  "--config sections for another subcommand than the chosen one, subcommand chosen by the config (C17), duplicate "
+                  "or empty names, a parameter named print_shtab. async components, set_defaults, fail_untyped=False, properties "
+                  "as subcommands, dataclass/subclass-typed parameters are outside the model. Known findings (both reproduced "
+                  "bug-for-bug by the model, both with a fix patch in fixes/): reserved-param-names and "
+                  "private-optional-without-default.",
+    "technique": "Rocq proof by simulation/refinement (code-shaped namespace fold vs. last-assignment reference semantics, induction over "
+                 "token lists and frame chains, all component trees) + generated-program correspondence (real modules, real auto_cli) "
+                 "judged inside Coq",
 }
